@@ -131,11 +131,14 @@ func c12Scenarios(tier string) []Scenario {
 	n := len(out)
 	for i := 0; i < n; i++ {
 		cs := out[i].(*clientScen)
-		if cs.s.Tries < 0 || cs.s.Tries > 3 || cs.s.T > 10 {
+		if cs.s.Tries < 0 || cs.s.T > 10 || (cs.s.Tries > 3 && tier != "thorough") {
 			continue
 		}
 		cp := *cs.s
 		cp.Bound = b
+		if tier == "thorough" && cs.s.Tries <= 2 {
+			cp.Bound = 3
+		}
 		cp.Name = fmt.Sprintf("c12-b%d-%04d", b, i)
 		out = append(out, &clientScen{s: &cp, fam: cs.fam + "-bounded"})
 	}
